@@ -154,7 +154,11 @@ func ruleA1(c *Ctx) {
 	}
 	// resolver limits
 	key = "resolver: argument limits"
-	rsm := scanShiftMask(rfd.Body, rpk.TypesInfo, func(ast.Expr) bool { return false })
+	var rsm shiftMask
+	for _, f := range rpk.Syntax {
+		x := scanShiftMask(f, rpk.TypesInfo, func(ast.Expr) bool { return false })
+		rsm.limits = append(rsm.limits, x.limits...)
+	}
 	var rl []int64
 	for _, l := range rsm.limits {
 		if l == 256 || (l > 128 && l < 70000) {
@@ -254,13 +258,28 @@ func ruleA2(c *Ctx) {
 			if !isCall {
 				continue
 			}
+			// named predicates defined in the arm (hasKwargs := op == CALL_KW || ...)
+			defs := map[string]ast.Expr{}
+			for _, st := range cc.Body {
+				if as, ok := st.(*ast.AssignStmt); ok && len(as.Lhs) == 1 && len(as.Rhs) == 1 {
+					if id, ok := as.Lhs[0].(*ast.Ident); ok {
+						defs[id.Name] = as.Rhs[0]
+					}
+				}
+			}
 			for _, st := range cc.Body {
 				ifs, ok := st.(*ast.IfStmt)
 				if !ok {
 					continue
 				}
+				var cond ast.Expr = ifs.Cond
+				if id, ok := cond.(*ast.Ident); ok {
+					if d, ok := defs[id.Name]; ok {
+						cond = d
+					}
+				}
 				mentions := map[string]bool{}
-				ast.Inspect(ifs.Cond, func(n ast.Node) bool {
+				ast.Inspect(cond, func(n ast.Node) bool {
 					if sel, ok := n.(*ast.SelectorExpr); ok {
 						mentions[sel.Sel.Name] = true
 					}
